@@ -30,12 +30,12 @@ pub const STUB_ASSUMPTIONS: &[&str] = &[
 pub const CHECKS: &[Check] = &[
     Check {
         id: "C01",
-        scenarios: &[("life", 300_000, 6_000_000), ("pool", 100_000, 2_000_000), ("teardown", 100_000, 2_000_000), ("mt-teardown", 15_000, 400_000)],
+        scenarios: &[("life", 300_000, 6_000_000), ("pool", 100_000, 2_000_000), ("teardown", 100_000, 2_000_000), ("mt-teardown", 15_000, 400_000), ("pool-cross", 60_000, 1_200_000)],
         owns: &["mem.freed-while-kernel-owns"],
         level: "exploration",
         rule: "one case = one seeded run of a random program (3-40 steps: create/poll/drop operations of ~75 kinds, Ring::poll, kernel consume/complete with drawn outcomes, descriptor and ring drops) against the simulated kernel; distinct = distinct abstract trace hash (sequence of actor/action/op kind/outcome class); non-trivial = at least one fault fired or the kernel acted at a yield point inside a10",
         assumptions: STUB_ASSUMPTIONS,
-        probes: &["probe_drop_running", "probe_drop_after_first_cqe", "probe_restart_taken", "probe_ring_dropped_with_inflight"],
+        probes: &["probe_drop_running", "probe_drop_after_first_cqe", "probe_restart_taken", "probe_ring_dropped_with_inflight", "probe_pool_cross_ring"],
     },
     Check {
         id: "C02",
@@ -93,12 +93,12 @@ pub const CHECKS: &[Check] = &[
     },
     Check {
         id: "C08",
-        scenarios: &[("pool", 450_000, 9_000_000), ("mt-pool", 20_000, 500_000), ("pool-wrap", 32, 96)],
+        scenarios: &[("pool", 450_000, 9_000_000), ("mt-pool", 20_000, 500_000), ("pool-wrap", 32, 96), ("pool-cross", 60_000, 1_200_000)],
         owns: &["pool."],
         level: "exploration",
         rule: "one case = one seeded history of pool reads, multishot reads, edits, releases and drops; after every step {kernel window} + {owned by live ReadBufs} partitions the pool; distinct = distinct abstract trace hash; non-trivial = fault fired, kernel acted at a yield point or thread switch",
         assumptions: STUB_ASSUMPTIONS,
-        probes: &["probe_pool_enobufs", "probe_pool_second_read", "probe_pool_buffer_to_abandoned_op"],
+        probes: &["probe_pool_enobufs", "probe_pool_second_read", "probe_pool_buffer_to_abandoned_op", "probe_pool_cross_ring"],
     },
     Check {
         id: "C09",
@@ -116,7 +116,7 @@ pub const CHECKS: &[Check] = &[
         level: "exploration",
         rule: "one case = one composite call (write_all/_vectored, send_all/_vectored, read_n/_vectored, recv_n/_vectored; shapes of 1-8 buffers with empty ones, offsets, flags, zero-copy) under a drawn sequence of short counts; the kernel-side stream must equal the input; distinct = distinct abstract trace hash; non-trivial = at least one short transfer",
         assumptions: STUB_ASSUMPTIONS,
-        probes: &["probe_composite_continuation", "probe_composite_boundary_split", "probe_composite_empty_buffer"],
+        probes: &["probe_composite_continuation", "probe_composite_boundary_split", "probe_composite_empty_buffer", "probe_composite_direct"],
     },
     Check {
         id: "C11",
@@ -143,7 +143,7 @@ pub const CHECKS: &[Check] = &[
         level: "exploration",
         rule: "one case = one seeded history including edit sequences on kernel-filled ReadBufs compared call by call with a capacity-bounded Vec<u8> model, with neighbouring slots canaried; distinct = distinct abstract trace hash; non-trivial = at least one edit happened next to a live neighbour",
         assumptions: STUB_ASSUMPTIONS,
-        probes: &["probe_readbuf_edit"],
+        probes: &["probe_readbuf_edit", "probe_readbuf_wide_slice"],
     },
     Check {
         id: "C17",
